@@ -29,6 +29,19 @@ CLAIMED = {
         "technique": "Lean 4 proof (multimap spec laws) + differential correspondence against the real MultimapTable API",
         "design_ref": "DESIGN.md §6 C09",
     },
+    "C17": {
+        "text": "Lean theorems stating the catalog's decision logic outright, for all catalogs, names and requests: wrong kind -> is-multimap/"
+                "not-multimap regardless of types; same kind but different key/value type name -> type-mismatch, same names with different "
+                "fixed width/alignment -> type-definition-changed, never ok; open succeeds iff absent-and-created or everything matches and the "
+                "name is not already open; open twice -> already-open while a handle lives, ok after drop (over arbitrary operation "
+                "sequences); rename/delete/list semantics; abort restores the committed catalog and commit publishes the staged one; the "
+                "invariant (names unique and sorted, kinds disjoint, live handles name staged tables) holds after every operation sequence. The "
+                "real API (write and read paths, both kinds, 14 types incl. user-defined and colliding names, files written by redb 3.0.0) is "
+                "compared answer by answer; storage release after delete is checked on the implementation (allocated pages return to level).",
+        "note": NOTE + "; 'deleting a table releases all of its storage' is proved only for the model's abstract rows (c17_delete_releases_rows_partial); page-level release is judged by the harness oracle and by the C06 page accounting",
+        "technique": "Lean 4 proof (catalog decision logic + inductive invariant) + differential correspondence against the real API",
+        "design_ref": "DESIGN.md §6 C17",
+    },
     "C18": {
         "text": "Lean theorems about the zipper specification CursorSpec for every built-in key type, map, bound and key: lower/upper bound put "
                 "the gap exactly where a sorted map would, peek/next/prev return and step over the neighbours, insert_before/insert_after are "
